@@ -648,7 +648,14 @@ func cmdBaseline(args []string) {
 		if pb, err := os.ReadFile(filepath.Join(verifDir, "pinned_unclaimed.json")); err == nil {
 			json.Unmarshal(pb, &pins)
 		}
+		exists := map[string]bool{}
+		for _, r := range run.results {
+			exists[r.Obl.Name] = true
+		}
 		for name, reason := range pins[id] {
+			if !exists[name] {
+				continue
+			}
 			if _, already := bl.Unclaimed[name]; !already {
 				bl.Unclaimed[name] = reason
 				n--
